@@ -885,6 +885,18 @@ func TestVerifC22Open(t *testing.T) {
 				panic(err)
 			}
 			x := &c22Ctx{env: env, cfg: cfg, ip: ip, c: c}
+			if cfg.active {
+				// the own FSM of a non-passive peer reconnects for ever (1 ms interval): end it with the case, the way
+				// collision handling ends an FSM for good (its goroutine and its connector return)
+				defer func() {
+					for _, f := range env.rig.c00FSMs(ip) {
+						select {
+						case f.eventCh <- Cease:
+						case <-time.After(2 * time.Second):
+						}
+					}
+				}()
+			}
 			for i, o := range opens {
 				if verdict = c22Session(x, o, i); verdict != "" {
 					verdict = fmt.Sprintf("session %d: %s", i, verdict)
